@@ -5,6 +5,7 @@ singleton list [u] and every pair from a 12-value core for list shapes.  Oracle:
 (schema model, selection) — no expected value needed — plus "every manufactured null is explained by an error" and
 JSON-serialisability.
 """
+import asyncio
 import enum
 import itertools
 import json
@@ -81,6 +82,8 @@ UNIVERSE = [
     ("intenum-ONE", lambda: PyLevel.ONE), ("strenum-RED", lambda: StrColor.RED), ("strenum-MAUVE", lambda: StrColor.MAUVE),
     ("decimal-3", lambda: Decimal("3")), ("decimal-1.5", lambda: Decimal("1.5")), ("decimal-almost-1", lambda: Decimal("0.9999999999999999999999999999")),
     ("fraction-7/2", lambda: Fraction(7, 2)), ("fraction-3/1", lambda: Fraction(3, 1)),
+    ("cancellederror", lambda: asyncio.CancelledError()), ("generatorexit", lambda: GeneratorExit("done")),
+    ("keyboardinterrupt", lambda: KeyboardInterrupt()),
     ("mappingproxy", lambda: types.MappingProxyType({"_typename": "O", "x": 1, "y": "q"})),
 ]
 TE_LABELS = ["te-bare", "te-path", "te-locations", "te-located", "raise-te-located"]
